@@ -225,12 +225,13 @@ def _w_longnames(task):
     import klepto.safe
     import klepto.keymaps as km
     res = {'counts': collections.Counter(), 'violations': [], 'samples': [], 'nontrivial': 0, 'outcomes': [], 'config': 'longnames'}
-    src = 'def f(alpha, debug=0, *rest, verbose=False, **opts):\n    CALLS[0] += 1\n    return (alpha, debug, rest, verbose, tuple(sorted(opts.items())))\n'
+    # ('bug' is a parameter whose name is contained in the name of another one, 'debug': names are compared, never searched)
+    src = 'def f(alpha, debug=0, *rest, verbose=False, bug=0, **opts):\n    CALLS[0] += 1\n    return (alpha, debug, rest, verbose, bug, tuple(sorted(opts.items())))\n'
     calls = [((1,), {}), ((1, 5), {}), ((1,), {'debug': 7}), ((2,), {}), ((2, 5), {}), ((1,), {'verbose': True}), ((1, 0, 9), {}),
-             ((1,), {'extra': 3}), ((1, 5), {'verbose': True})]
+             ((1,), {'extra': 3}), ((1, 5), {'verbose': True}), ((1,), {'bug': 1}), ((1,), {'bug': 2}), ((1, 5), {'bug': 1})]
     # masked(binding) by ignore spec
     def masked(b, ign):
-        alpha, debug, rest, verbose, opts = b
+        alpha, debug, rest, verbose, bug, opts = b
         names = set(x for x in (ign if isinstance(ign, tuple) else (ign,)))
         if 'alpha' in names or 0 in names:
             alpha = '<ignored>'
@@ -238,21 +239,23 @@ def _w_longnames(task):
             debug = '<ignored>'
         if 'verbose' in names:
             verbose = '<ignored>'
-        return (alpha, debug, rest, verbose, opts)
+        return (alpha, debug, rest, verbose, bug, opts)
     vias = [('direct', lambda d: d), ('copy', copy.copy), ('deepcopy', copy.deepcopy),
             ('pickle', lambda d: pickle.loads(pickle.dumps(d))), ('dill', lambda d: dill.loads(dill.dumps(d)))]
     for mod in (klepto, klepto.safe):
         for alg in ('no', 'inf', 'lfu', 'lru', 'mru', 'rr'):
             for ign in ('debug', 'verbose', 1, ('debug',), ('debug', 'verbose'), ('alpha',)):
-                for vname, via in vias:
+              for tol, deep in ((None, False), (1, True)):
+                for vname, via in (vias if tol is None else vias[:1]):
                     ns = {'CALLS': [0], '__name__': 'vfw_generated'}
                     exec(compile(src, '<c11 longnames>', 'exec'), ns)
                     f = ns['f']
                     kw = {} if alg in ('no', 'inf') else {'maxsize': 1000}
-                    cfgtxt = '%s.%s_cache(ignore=%r) %s' % (mod.__name__, alg, ign, 'used directly' if vname == 'direct' else 'rebuilt by %s' % vname)
+                    cfgtxt = '%s.%s_cache(ignore=%r%s) %s' % (mod.__name__, alg, ign, '' if tol is None else ', tol=%r, deep=%r' % (tol, deep),
+                                                           'used directly' if vname == 'direct' else 'rebuilt by %s' % vname)
                     res['counts']['programs'] += 1
                     try:
-                        W = via(getattr(mod, alg + '_cache')(keymap=km.stringmap(flat=False), ignore=ign, **kw))(f)
+                        W = via(getattr(mod, alg + '_cache')(keymap=km.stringmap(flat=False), ignore=ign, tol=tol, deep=deep, **kw))(f)
                     except Exception as e:
                         res['violations'].append(_v('C11', {'rule': 'decorator-cannot-be-rebuilt', 'via': vname, 'exc': type(e).__name__},
                                                     '%s: %r' % (cfgtxt, e), {'task': 'longnames', 'config': cfgtxt}))
